@@ -102,6 +102,14 @@ def rand_tape(pool, nw):
             ops.append(qp.adjoint(rng.choice(GATES1)(rand_angle(pool), wires=rng.randrange(nw))))
         elif r < 0.92:
             ops.append(qp.pow(rng.choice(GATES1[:3])(rand_angle(pool), wires=rng.randrange(nw)), rng.choice([2, 3])))
+        elif r < 0.96:
+            # operators whose data are complex arrays (the key must keep the imaginary parts)
+            a, b = rng.choice(pool) + 0.1, rng.choice(pool) + 0.2
+            if rng.random() < 0.5:
+                U = qp.matrix(qp.RZ(a, 0)) @ qp.matrix(qp.RY(b, 0)) @ qp.matrix(qp.RZ(-a / 2, 0))
+                ops.append(qp.QubitUnitary(np.asarray(U), wires=rng.randrange(nw)))
+            else:
+                ops.append(qp.DiagonalQubitUnitary(np.array([np.exp(-1j * a), np.exp(1j * b)]), wires=rng.randrange(nw)))
         else:
             ops.append(qp.Hadamard(rng.randrange(nw)))
     ops = [qp.Hadamard(w) for w in range(nw)] + ops
@@ -144,8 +152,19 @@ for ci in range(ncases):
                 tapes.append(tw)
             except Exception:
                 pass
+    for t in list(tapes):          # twins differing only in the imaginary parts of a complex parameter (conjugated matrix)
+        ps = t.get_parameters(trainable_only=False)
+        cj = [j for j, x in enumerate(ps) if np.iscomplexobj(x)]
+        if cj:
+            j = rng.choice(cj)
+            try:
+                tapes.append(t.bind_new_parameters([np.conj(np.asarray(ps[j]))], [j]))
+            except Exception:
+                pass
     nb = rng.randint(1, 3)
     batches = [[rng.randrange(len(tapes)) for _ in range(rng.randint(1, 5))] for _ in range(nb)]
+    if any(np.iscomplexobj(x) for t in tapes for x in t.get_parameters(trainable_only=False)):
+        batches.append(list(range(len(tapes))))     # make sure the twins meet in one cache
     restable = {}
     keycodes, kt = {}, []
     for i, t in enumerate(tapes):
